@@ -118,6 +118,7 @@ func (eng *Engine) verifyContract(ct *Contract) (res *FuncResult) {
 	}
 	if ct.ModNothing || len(ct.Modifies) > 0 {
 		vc.frame.active = true
+		vc.frame.strict = true
 		for _, cl := range ct.Modifies {
 			v := vc.evalClauseVal(cl, args, st, nil)
 			vc.frame.refs = append(vc.frame.refs, vc.def(refSort, "modref", app("g_iref", v.S)))
